@@ -97,11 +97,41 @@ theorem convLam_sem (w : World) (env : Env) (z : String) (gps fps : List String)
     simp only [denLamLz] at hg
     exact hg
 
-/-- helper: evaluate both sides after the source has been evaluated to a sequence -/
-theorem op2_congr (w : World) (env : Env) (src : Expr) {A B : List Val → Res}
-    (h : ∀ vs, A vs = B vs) :
+/-- two stacked operators: the source is evaluated once, then both operators run on values -/
+theorem denLz_op2_op2 (w : World) (env : Env) (op1 op2 : String)
+    (h1 : op1 = "Select" ∨ op1 = "Where" ∨ op1 = "SelectMany") (h2 : op2 = "Select" ∨ op2 = "Where" ∨ op2 = "SelectMany")
+    (src f g : Expr) :
+    denLz w (fcall op2 [fcall op1 [src, f], g]) env =
+      (do let s ← denLz w src env
+          let vs ← asSeq s
+          let r ← seqOp2Lz op1 (applyLam1 (denLamLz w f) env) vs
+          let vs' ← asSeq r
+          seqOp2Lz op2 (applyLam1 (denLamLz w g) env) vs') := by
+  rw [denLz_op2 w env op2 h2, denLz_op2 w env op1 h1]
+  cases denLz w src env with
+  | error e => rfl
+  | ok s =>
+    cases hs : asSeq s with
+    | error e => simp [hs, bind, Except.bind]
+    | ok vs =>
+      simp only [hs, bind, Except.bind]
+
+theorem src_congr (w : World) (env : Env) (src : Expr) {A B : List Val → Res} (h : ∀ vs, A vs = B vs) :
     (do let s ← denLz w src env; let vs ← asSeq s; A vs) = (do let s ← denLz w src env; let vs ← asSeq s; B vs) := by
   have : A = B := funext h
+  rw [this]
+
+theorem src_le (w : World) (env : Env) (src : Expr) {A B : List Val → Res} (h : ∀ vs, ELe (A vs) (B vs)) :
+    ELe (do let s ← denLz w src env; let vs ← asSeq s; A vs) (do let s ← denLz w src env; let vs ← asSeq s; B vs) := by
+  cases denLz w src env with
+  | error e => exact ELe.refl _
+  | ok s =>
+    cases hs : asSeq s with
+    | error e => simp only [hs, bind, Except.bind]; exact ELe.refl _
+    | ok vs => simp only [hs, bind, Except.bind]; exact h vs
+
+theorem selL_congr {f g : Val → Res} (h : ∀ u, f u = g u) (vs : List Val) : selL f vs = selL g vs := by
+  have : f = g := funext h
   rw [this]
 
 /-! ### the rules -/
@@ -112,25 +142,13 @@ theorem rule_select_select (w : World) (env : Env) (src : Expr) (z : String) (gp
     (hnp : NoPoison (applyLam1 (denLamLz w (.lam fps fb)) env)) :
     denLz w (fcall "Select" [fcall "Select" [src, .lam fps fb], .lam gps gb]) env =
     denLz w (fcall "Select" [src, convLam z (.lam gps gb) (.lam fps fb)]) env := by
-  rw [denLz_op2 w env "Select" (Or.inl rfl), denLz_op2 w env "Select" (Or.inl rfl), denLz_op2 w env "Select" (Or.inl rfl)]
-  cases denLz w src env with
-  | error e => rfl
-  | ok s =>
-    cases hs : asSeq s with
-    | error e => simp [bind, Except.bind, hs]
-    | ok vs =>
-      simp only [bind, Except.bind, hs, seqOp2Lz_select, asSeq_list]
-      rw [sel_sel _ _ hnp]
-      congr 2
-      simp only [selL]
-      apply List.map_congr_left
-      intro v _
-      congr 1
-      cases force v with
-      | error e => rfl
-      | ok u =>
-        simp only [bind, Except.bind]
-        exact (convLam_sem w env z gps fps gb fb hzf hzg u).symm
+  rw [denLz_op2_op2 w env "Select" "Select" (Or.inl rfl) (Or.inl rfl), denLz_op2 w env "Select" (Or.inl rfl)]
+  apply src_congr
+  intro vs
+  simp only [seqOp2Lz_select, asSeq_list, bind, Except.bind]
+  rw [sel_sel _ _ hnp]
+  congr 2
+  exact selL_congr (fun u => (convLam_sem w env z gps fps gb fb hzf hzg u).symm) vs
 
 /-- **SelectMany ∘ Select** -/
 theorem rule_selectMany_select (w : World) (env : Env) (src : Expr) (z : String) (gps fps : List String) (gb fb : Expr)
@@ -138,28 +156,16 @@ theorem rule_selectMany_select (w : World) (env : Env) (src : Expr) (z : String)
     (hnp : NoPoison (applyLam1 (denLamLz w (.lam fps fb)) env)) :
     denLz w (fcall "SelectMany" [fcall "Select" [src, .lam fps fb], .lam gps gb]) env =
     denLz w (fcall "SelectMany" [src, convLam z (.lam gps gb) (.lam fps fb)]) env := by
-  rw [denLz_op2 w env "SelectMany" (Or.inr (Or.inr rfl)), denLz_op2 w env "Select" (Or.inl rfl),
+  rw [denLz_op2_op2 w env "Select" "SelectMany" (Or.inl rfl) (Or.inr (Or.inr rfl)),
     denLz_op2 w env "SelectMany" (Or.inr (Or.inr rfl))]
-  cases denLz w src env with
-  | error e => rfl
-  | ok s =>
-    cases hs : asSeq s with
-    | error e => simp [bind, Except.bind, hs]
-    | ok vs =>
-      simp only [bind, Except.bind, hs, seqOp2Lz_select, seqOp2Lz_many, asSeq_list]
-      rw [many_sel _ _ hnp]
-      congr 2
-      simp only [manyL]
-      apply flatMap_congr'
-      intro v _
-      simp only [manyElem]
-      cases force v with
-      | error e => rfl
-      | ok u =>
-        simp only [bind, Except.bind]
-        rw [show applyLam1 (denLamLz w (convLam z (.lam gps gb) (.lam fps fb))) env u = _ from
-          convLam_sem w env z gps fps gb fb hzf hzg u]
-        rfl
+  apply src_congr
+  intro vs
+  simp only [seqOp2Lz_select, seqOp2Lz_many, asSeq_list, bind, Except.bind]
+  rw [many_sel _ _ hnp]
+  have : (fun x => applyLam1 (denLamLz w (.lam fps fb)) env x >>= applyLam1 (denLamLz w (.lam gps gb)) env) =
+      applyLam1 (denLamLz w (convLam z (.lam gps gb) (.lam fps fb))) env :=
+    funext (fun u => (convLam_sem w env z gps fps gb fb hzf hzg u).symm)
+  rw [this]
 
 /-- **Where ∘ Select**: filter first (on the composition), then map -/
 theorem rule_where_select (w : World) (env : Env) (src : Expr) (z : String) (gps fps : List String) (gb fb : Expr)
@@ -167,27 +173,17 @@ theorem rule_where_select (w : World) (env : Env) (src : Expr) (z : String) (gps
     (hnp : NoPoison (applyLam1 (denLamLz w (.lam fps fb)) env)) :
     denLz w (fcall "Where" [fcall "Select" [src, .lam fps fb], .lam gps gb]) env =
     denLz w (fcall "Select" [fcall "Where" [src, convLam z (.lam gps gb) (.lam fps fb)], .lam fps fb]) env := by
-  rw [denLz_op2 w env "Where" (Or.inr (Or.inl rfl)), denLz_op2 w env "Select" (Or.inl rfl),
-    denLz_op2 w env "Select" (Or.inl rfl), denLz_op2 w env "Where" (Or.inr (Or.inl rfl))]
-  cases denLz w src env with
-  | error e => rfl
-  | ok s =>
-    cases hs : asSeq s with
-    | error e => simp [bind, Except.bind, hs]
-    | ok vs =>
-      simp only [bind, Except.bind, hs, seqOp2Lz_select, seqOp2Lz_where, asSeq_list]
-      rw [whr_sel _ _ hnp]
-      congr 3
-      simp only [whrL]
-      apply flatMap_congr'
-      intro v _
-      simp only [whereElem]
-      cases force v with
-      | error e => rfl
-      | ok u =>
-        simp only []
-        rw [show applyLam1 (denLamLz w (convLam z (.lam gps gb) (.lam fps fb))) env u = _ from
-          convLam_sem w env z gps fps gb fb hzf hzg u]
+  rw [denLz_op2_op2 w env "Select" "Where" (Or.inl rfl) (Or.inr (Or.inl rfl)),
+    denLz_op2_op2 w env "Where" "Select" (Or.inr (Or.inl rfl)) (Or.inl rfl)]
+  apply src_congr
+  intro vs
+  simp only [seqOp2Lz_select, seqOp2Lz_where, asSeq_list, bind, Except.bind]
+  rw [whr_sel _ _ hnp]
+  have : (fun x => applyLam1 (denLamLz w (.lam fps fb)) env x >>= applyLam1 (denLamLz w (.lam gps gb)) env) =
+      applyLam1 (denLamLz w (convLam z (.lam gps gb) (.lam fps fb))) env :=
+    funext (fun u => (convLam_sem w env z gps fps gb fb hzf hzg u).symm)
+  rw [this]
+  cases whereLz (applyLam1 (denLamLz w (convLam z (.lam gps gb) (.lam fps fb))) env) vs <;> rfl
 
 /-- the conjunction built by Where ∘ Where -/
 def andLam (z : String) (f g : Expr) : Expr :=
@@ -196,9 +192,8 @@ def andLam (z : String) (f g : Expr) : Expr :=
 theorem andLam_sem (w : World) (env : Env) (z : String) (gps fps : List String) (gb fb : Expr)
     (hzf : z ∉ fv (.lam fps fb)) (hzg : z ∉ fv (.lam gps gb)) (u : Val) :
     applyLam1 (denLamLz w (andLam z (.lam fps fb) (.lam gps gb))) env u =
-      (do let b ← applyLam1 (denLamLz w (.lam fps fb)) env u
-          if truthy b then applyLam1 (denLamLz w (.lam gps gb)) env u else pure b) := by
-  simp only [andLam, denLamLz]
+      andF (applyLam1 (denLamLz w (.lam fps fb)) env) (applyLam1 (denLamLz w (.lam gps gb)) env) u := by
+  simp only [andLam, denLamLz, andF]
   rw [applyLam1_single]
   have h0 : denLz w (.name z) (env.upd z u) = .ok u := by simp [denLz, Env.upd]
   have hf := applyLam1_upd_fresh w env (.lam fps fb) z u u hzf
@@ -208,38 +203,35 @@ theorem andLam_sem (w : World) (env : Env) (z : String) (gps fps : List String) 
     rw [denLz_called1, h0]; exact hf
   have e2 : denLz w (.call (.lam gps gb) [.name z] [] []) (env.upd z u) = applyLam1 (some (gps, denLz w gb)) env u := by
     rw [denLz_called1, h0]; exact hg
-  show evOp .boolAnd ((denLLz w [.call (.lam fps fb) [.name z] [] [], .call (.lam gps gb) [.name z] [] []]).map (· (env.upd z u))) = _
-  simp only [denLLz, List.map, evOp, andChain, e1, e2]
-  cases applyLam1 (some (fps, denLz w fb)) env u with
-  | error e => rfl
-  | ok b => by_cases hb : truthy b <;> simp [hb, pure, Except.pure, bind, Except.bind]
+  show evOpLz .boolAnd ((denLLz w [.call (.lam fps fb) [.name z] [] [], .call (.lam gps gb) [.name z] [] []]).map (· (env.upd z u))) = _
+  simp only [denLLz, List.map, evOpLz, evOp, andChain, e1, e2]
 
-/-- **Where ∘ Where** -/
+/-- **Where ∘ Where** (whenever the original evaluates, the fused one evaluates to the same value) -/
 theorem rule_where_where (w : World) (env : Env) (src : Expr) (z : String) (gps fps : List String) (gb fb : Expr)
     (hzf : z ∉ fv (.lam fps fb)) (hzg : z ∉ fv (.lam gps gb)) :
-    denLz w (fcall "Where" [fcall "Where" [src, .lam fps fb], .lam gps gb]) env =
-    denLz w (fcall "Where" [src, andLam z (.lam fps fb) (.lam gps gb)]) env := by
-  rw [denLz_op2 w env "Where" (Or.inr (Or.inl rfl)), denLz_op2 w env "Where" (Or.inr (Or.inl rfl)),
+    ELe (denLz w (fcall "Where" [fcall "Where" [src, .lam fps fb], .lam gps gb]) env)
+        (denLz w (fcall "Where" [src, andLam z (.lam fps fb) (.lam gps gb)]) env) := by
+  rw [denLz_op2_op2 w env "Where" "Where" (Or.inr (Or.inl rfl)) (Or.inr (Or.inl rfl)),
     denLz_op2 w env "Where" (Or.inr (Or.inl rfl))]
-  cases denLz w src env with
-  | error e => rfl
-  | ok s =>
-    cases hs : asSeq s with
-    | error e => simp [bind, Except.bind, hs]
-    | ok vs =>
-      simp only [bind, Except.bind, hs, seqOp2Lz_where, asSeq_list]
-      rw [whr_whr]
-      congr 2
-      simp only [whrL]
-      apply flatMap_congr'
-      intro v _
-      simp only [whereElem]
-      cases force v with
-      | error e => rfl
-      | ok u =>
-        simp only []
-        rw [show applyLam1 (denLamLz w (andLam z (.lam fps fb) (.lam gps gb))) env u = _ from
-          andLam_sem w env z gps fps gb fb hzf hzg u]
+  apply src_le
+  intro vs
+  simp only [seqOp2Lz_where]
+  have : applyLam1 (denLamLz w (andLam z (.lam fps fb) (.lam gps gb))) env =
+      andF (applyLam1 (denLamLz w (.lam fps fb)) env) (applyLam1 (denLamLz w (.lam gps gb)) env) :=
+    funext (andLam_sem w env z gps fps gb fb hzf hzg)
+  rw [this]
+  intro v h
+  have key := whr_whr (applyLam1 (denLamLz w (.lam fps fb)) env) (applyLam1 (denLamLz w (.lam gps gb)) env) vs
+  cases hw : whereLz (applyLam1 (denLamLz w (.lam fps fb)) env) vs with
+  | error e => simp [hw, Except.map, bind, Except.bind] at h
+  | ok r1 =>
+    simp only [hw, Except.map, bind, Except.bind, asSeq_list] at h
+    cases hw2 : whereLz (applyLam1 (denLamLz w (.lam gps gb)) env) r1 with
+    | error e => simp [hw2] at h
+    | ok r2 =>
+      simp only [hw2, Except.ok.injEq] at h
+      have := key r2 (by simp [hw, hw2, bind, Except.bind])
+      simp [this, Except.map, h]
 
 /-- the function computed by `lambda p: Op(fb, g)` when `p` is not free in `g` -/
 theorem innerLam_sem (w : World) (env : Env) (op : String) (hop : op = "Select" ∨ op = "Where" ∨ op = "SelectMany")
@@ -262,69 +254,82 @@ theorem rule_select_selectMany (w : World) (env : Env) (src : Expr) (fps : List 
     (hp : ∀ p ∈ fps, p ∉ fv g) :
     denLz w (fcall "Select" [fcall "SelectMany" [src, .lam fps fb], g]) env =
     denLz w (fcall "SelectMany" [src, .lam fps (fcall "Select" [fb, g])]) env := by
-  rw [denLz_op2 w env "Select" (Or.inl rfl), denLz_op2 w env "SelectMany" (Or.inr (Or.inr rfl)),
+  rw [denLz_op2_op2 w env "SelectMany" "Select" (Or.inr (Or.inr rfl)) (Or.inl rfl),
     denLz_op2 w env "SelectMany" (Or.inr (Or.inr rfl))]
-  cases denLz w src env with
-  | error e => rfl
-  | ok s =>
-    cases hs : asSeq s with
-    | error e => simp [bind, Except.bind, hs]
-    | ok vs =>
-      simp only [bind, Except.bind, hs, seqOp2Lz_select, seqOp2Lz_many, asSeq_list]
-      rw [sel_many]
-      congr 3
-      funext u
-      exact (innerLam_sem w env "Select" (Or.inl rfl) fps fb g hp u).symm
+  apply src_congr
+  intro vs
+  simp only [seqOp2Lz_select, seqOp2Lz_many]
+  have : applyLam1 (denLamLz w (.lam fps (fcall "Select" [fb, g]))) env =
+      innerOp "Select" (applyLam1 (denLamLz w (.lam fps fb)) env) (applyLam1 (denLamLz w g) env) :=
+    funext (innerLam_sem w env "Select" (Or.inl rfl) fps fb g hp)
+  rw [this, ← sel_many]
+  cases manyLz (applyLam1 (denLamLz w (.lam fps fb)) env) vs <;> rfl
 
 /-- **Where ∘ SelectMany** -/
 theorem rule_where_selectMany (w : World) (env : Env) (src : Expr) (fps : List String) (fb g : Expr)
     (hp : ∀ p ∈ fps, p ∉ fv g) :
-    denLz w (fcall "Where" [fcall "SelectMany" [src, .lam fps fb], g]) env =
-    denLz w (fcall "SelectMany" [src, .lam fps (fcall "Where" [fb, g])]) env := by
-  rw [denLz_op2 w env "Where" (Or.inr (Or.inl rfl)), denLz_op2 w env "SelectMany" (Or.inr (Or.inr rfl)),
+    ELe (denLz w (fcall "Where" [fcall "SelectMany" [src, .lam fps fb], g]) env)
+        (denLz w (fcall "SelectMany" [src, .lam fps (fcall "Where" [fb, g])]) env) := by
+  rw [denLz_op2_op2 w env "SelectMany" "Where" (Or.inr (Or.inr rfl)) (Or.inr (Or.inl rfl)),
     denLz_op2 w env "SelectMany" (Or.inr (Or.inr rfl))]
-  cases denLz w src env with
-  | error e => rfl
-  | ok s =>
-    cases hs : asSeq s with
-    | error e => simp [bind, Except.bind, hs]
-    | ok vs =>
-      simp only [bind, Except.bind, hs, seqOp2Lz_where, seqOp2Lz_many, asSeq_list]
-      rw [whr_many]
-      congr 3
-      funext u
-      exact (innerLam_sem w env "Where" (Or.inr (Or.inl rfl)) fps fb g hp u).symm
+  apply src_le
+  intro vs
+  simp only [seqOp2Lz_where, seqOp2Lz_many]
+  have : applyLam1 (denLamLz w (.lam fps (fcall "Where" [fb, g]))) env =
+      innerOp "Where" (applyLam1 (denLamLz w (.lam fps fb)) env) (applyLam1 (denLamLz w g) env) :=
+    funext (innerLam_sem w env "Where" (Or.inr (Or.inl rfl)) fps fb g hp)
+  rw [this]
+  intro v h
+  have key := whr_many (applyLam1 (denLamLz w (.lam fps fb)) env) (applyLam1 (denLamLz w g) env) vs
+  cases hm : manyLz (applyLam1 (denLamLz w (.lam fps fb)) env) vs with
+  | error e => simp [hm, Except.map, bind, Except.bind] at h
+  | ok r1 =>
+    simp only [hm, Except.map, bind, Except.bind, asSeq_list] at h
+    cases hw2 : whereLz (applyLam1 (denLamLz w g) env) r1 with
+    | error e => simp [hw2] at h
+    | ok r2 =>
+      simp only [hw2, Except.ok.injEq] at h
+      have := key r2 (by simp [hm, hw2, bind, Except.bind])
+      simp [this, Except.map, h]
 
 /-- **SelectMany ∘ SelectMany** -/
 theorem rule_selectMany_selectMany (w : World) (env : Env) (src : Expr) (fps : List String) (fb g : Expr)
     (hp : ∀ p ∈ fps, p ∉ fv g) :
-    denLz w (fcall "SelectMany" [fcall "SelectMany" [src, .lam fps fb], g]) env =
-    denLz w (fcall "SelectMany" [src, .lam fps (fcall "SelectMany" [fb, g])]) env := by
-  rw [denLz_op2 w env "SelectMany" (Or.inr (Or.inr rfl)), denLz_op2 w env "SelectMany" (Or.inr (Or.inr rfl)),
+    ELe (denLz w (fcall "SelectMany" [fcall "SelectMany" [src, .lam fps fb], g]) env)
+        (denLz w (fcall "SelectMany" [src, .lam fps (fcall "SelectMany" [fb, g])]) env) := by
+  rw [denLz_op2_op2 w env "SelectMany" "SelectMany" (Or.inr (Or.inr rfl)) (Or.inr (Or.inr rfl)),
     denLz_op2 w env "SelectMany" (Or.inr (Or.inr rfl))]
-  cases denLz w src env with
-  | error e => rfl
-  | ok s =>
-    cases hs : asSeq s with
-    | error e => simp [bind, Except.bind, hs]
-    | ok vs =>
-      simp only [bind, Except.bind, hs, seqOp2Lz_many, asSeq_list]
-      rw [many_many]
-      congr 3
-      funext u
-      exact (innerLam_sem w env "SelectMany" (Or.inr (Or.inr rfl)) fps fb g hp u).symm
+  apply src_le
+  intro vs
+  simp only [seqOp2Lz_many]
+  have : applyLam1 (denLamLz w (.lam fps (fcall "SelectMany" [fb, g]))) env =
+      innerOp "SelectMany" (applyLam1 (denLamLz w (.lam fps fb)) env) (applyLam1 (denLamLz w g) env) :=
+    funext (innerLam_sem w env "SelectMany" (Or.inr (Or.inr rfl)) fps fb g hp)
+  rw [this]
+  intro v h
+  have key := many_many (applyLam1 (denLamLz w (.lam fps fb)) env) (applyLam1 (denLamLz w g) env) vs
+  cases hm : manyLz (applyLam1 (denLamLz w (.lam fps fb)) env) vs with
+  | error e => simp [hm, Except.map, bind, Except.bind] at h
+  | ok r1 =>
+    simp only [hm, Except.map, bind, Except.bind, asSeq_list] at h
+    cases hw2 : manyLz (applyLam1 (denLamLz w g) env) r1 with
+    | error e => simp [hw2] at h
+    | ok r2 =>
+      simp only [hw2, Except.ok.injEq] at h
+      have := key r2 (by simp [hm, hw2, bind, Except.bind])
+      simp [this, Except.map, h]
 
 /-! ### pushing an access on `First(seq)` into the sequence -/
 
 /-- **First(seq).a  =  First(Select(seq, lambda z: z.a))** -/
 theorem rule_first_attr (w : World) (env : Env) (s : Expr) (a z : String)
-    (hnp : NoPoison (fun u => getAttr u a)) :
+    (hnp : NoPoison (fun u => getAttrLz u a)) :
     denLz w (.attr (fcall "First" [s]) a) env =
     denLz w (fcall "First" [fcall "Select" [s, .lam [z] (.attr (.name z) a)]]) env := by
   rw [denLz_first, denLz_op2 w env "Select" (Or.inl rfl)]
   simp only [denLz]
   rw [denLz_first]
-  have hF : applyLam1 (denLamLz w (.lam [z] (.attr (.name z) a))) env = fun u => getAttr u a := by
+  have hF : applyLam1 (denLamLz w (.lam [z] (.attr (.name z) a))) env = fun u => getAttrLz u a := by
     funext u
     simp [denLamLz, applyLam1, denLz, Env.upd, bind, Except.bind]
   rw [hF]
@@ -335,7 +340,7 @@ theorem rule_first_attr (w : World) (env : Env) (s : Expr) (a z : String)
     | error e => simp [bind, Except.bind, hs]
     | ok vs =>
       simp only [bind, Except.bind, hs, seqOp2Lz_select, asSeq_list]
-      have := first_sel (fun u => getAttr u a) hnp vs
+      have := first_sel (fun u => getAttrLz u a) hnp vs
       simp only [bind, Except.bind] at this
       rw [this]
 
